@@ -26,6 +26,9 @@ def run(ctx):
         _shared_mechanism(ctx),
         fault_injection(ctx, ctx.size(40, 500)),
         custom_classes_two_trees(ctx, ctx.size(12, 120)),
+        # an objective with NaN holes: the STRUCTURE of the tree does not depend on how NaN values are ordered
+        # (seed provenance is compared by value and is left to the NaN-free runs)
+        _nan_structure(ctx),
     ]
 
 
@@ -220,6 +223,13 @@ def fault_injection(ctx, n):
             sl.nontrivial.add(runs.spec_id(spec))
     if args:
         sl.sample(runs.describe(args[0][0]))
+    return sl
+
+
+def _nan_structure(ctx):
+    sl = runs.nan_monitor_batch(ctx, PID, ctx.size(30, 300), salt=57)
+    keep = ("C07/duplicate-ids", "C07/root", "C07/level-registration", "C07/wrong-engine", "C07/started-at", "C07/child-unknown", "C07/child-level", "C07/started-before-parent", "C07/parent-count", "C07/run-did-not-terminate")
+    sl.violations = [v for v in sl.violations if v["signature"] in keep]
     return sl
 
 
